@@ -319,8 +319,55 @@ def _bigtrack_tracks():
     return SolutionTracks(g, segmentation=seg, ndim=3)
 
 
+def c15_session_case(case):
+    """one tracks object: export a selection, edit the lineage, export the same selection again
+    (and once more after undo); every export is judged against the graph as it is then"""
+    from funtracks.import_export import export_to_csv, export_to_geff
+    _k, wname, seed_j, subset, fmt, edits = case
+    w = worlds.world(wname)
+    tracks = explore.rebuild(w, worlds.seed_from_json(seed_j), [])
+    subset = set(subset)
+    d = _tmp()
+    try:
+        for step in range(len(edits) + 1):
+            if step:
+                o = events.apply_event(tracks, w, tuple(edits[step - 1]))
+                if o.status not in ("ok",) or o.action is False:
+                    return []
+            edges = [(int(u), int(v)) for u, v in tracks.graph.edges]
+            sel = {n for n in subset if tracks.graph.has_node(n)}
+            if not sel:
+                return []
+            exp_nodes = _ancestors_closure(edges, sel)
+            exp_edges = {(u, v) for u, v in edges if u in exp_nodes and v in exp_nodes}
+            tag = f"{fmt}:after-{'-'.join(str(e[0]) for e in edits[:step]) or 'nothing'}"
+            try:
+                if fmt == "csv":
+                    export_to_csv(tracks, d / f"t{step}.csv", node_ids=sel)
+                    df = pd.read_csv(d / f"t{step}.csv")
+                    got_nodes = set(int(x) for x in df["id"]) if len(df) else set()
+                    got_edges = {(int(p), int(c)) for p, c in zip(df["parent_id"], df["id"]) if not pd.isna(p)} if len(df) else set()
+                else:
+                    import geff
+                    export_to_geff(tracks, d / f"g{step}", node_ids=sel)
+                    g, _meta = geff.read(d / f"g{step}" / "tracks", backend="networkx")
+                    got_nodes = set(int(n) for n in g.nodes)
+                    got_edges = {(int(u), int(v)) for u, v in g.edges}
+            except Exception as e:  # noqa: BLE001
+                return [vio("C15", "raises", f"{tag}: {type(e).__name__}: {e}", case, "subset-export-session", tag)]
+            if got_nodes != exp_nodes:
+                return [vio("C15", "nodes", f"{tag}: export #{step + 1} from the same object wrote {sorted(got_nodes)}, expected selection {sorted(sel)} + ancestors = {sorted(exp_nodes)} (edges now {sorted(edges)})", case, "subset-export-session", tag)]
+            if got_edges != exp_edges:
+                return [vio("C15", "edges", f"{tag}: export #{step + 1} wrote edges {sorted(got_edges)}, expected {sorted(exp_edges)}", case, "subset-export-session", tag)]
+    finally:
+        shutil.rmtree(d, ignore_errors=True)
+    return []
+
+
 def c15_case(case):
     from funtracks.import_export import export_to_csv, export_to_geff
+    if case[0] == "session":
+        return c15_session_case(case)
     kind, wname, seed_j, subset, fmt = case[:5]
     w = worlds.world(wname)
     seed = worlds.seed_from_json(seed_j)
@@ -425,6 +472,21 @@ def c15_cases(tier):
         sel = tuple(i for i in leaves if (i - 12) not in drop)
         yield ("subset", "seg-2d-core", one, sel, "geff", "many")
         yield ("subset", "seg-2d-core", one, sel, "csv", "many")
+    # sessions on one object: export, edit the lineage above / below the selection, export again,
+    # undo, export again (all forests <= 3 / 4 nodes x all one- and two-node selections x every
+    # edge deletion and every forward edge addition)
+    for seed in worlds.forests(3 if q else 4, 3, 1):
+        sj = worlds.seed_to_json(seed)
+        ids = sorted(seed["nodes"])
+        tm = {k: v[0] for k, v in seed["nodes"].items()}
+        edits = [("del_edge", u, v) for u, v in seed["edges"]]
+        edits += [("add_edge", u, v, False) for u in ids for v in ids if tm[u] < tm[v] and (u, v) not in seed["edges"]]
+        for r in (1, 2):
+            for sub in itertools.combinations(ids, r):
+                for e in edits:
+                    yield ("session", "noseg-2d-given", sj, sub, "csv", [list(e), ["undo"]])
+                    if r == 1 and len(ids) <= 2:
+                        yield ("session", "noseg-2d-given", sj, sub, "geff", [list(e), ["undo"]])
     for wname in ("noseg-2d-given", "seg-2d-core"):
         for seed in worlds.forests(n, 3 if q else 4, 1):
             sj = worlds.seed_to_json(seed)
